@@ -63,6 +63,16 @@ def _angle_quarters(n):
     return None
 
 
+def _angle_quarters_neg(n):
+    """node = 90 k - wall tilt (degrees)  -> k, or None"""
+    p = Normalizer({TILT: "B"}, {}, strict=False).code(strip(n))
+    ref = Normalizer({}, {}, strict=False)
+    for k in range(-4, 5):
+        if p.equals(ref.ref("%d - B" % (90 * k))):
+            return k
+    return None
+
+
 def _const_quarters(n):
     """constant angle that is a multiple of 90 degrees -> k, or None"""
     p = Normalizer({}, {}, strict=False).code(strip(n))
@@ -88,7 +98,12 @@ def _trig_of(n):
         raise AnalysisError("reveal geometry: %s of something that is not an angle in degrees turned to radians: %s" % (which, show(arg)[:60]))
     k = _angle_quarters(arg[2][0])
     if k is None:
-        raise AnalysisError("reveal geometry: %s of an angle that is not the wall's tilt plus a multiple of 90 degrees: %s" % (which, show(arg[2][0])[:60]))
+        # 90 k - tilt: cos(90k - t) = cos(t - 90k), sin(90k - t) = -sin(t - 90k)
+        km = _angle_quarters_neg(arg[2][0])
+        if km is None:
+            raise AnalysisError("reveal geometry: %s of an angle that is not plus or minus the wall's tilt plus a multiple of 90 degrees: %s" % (which, show(arg[2][0])[:60]))
+        co, si = _quarter_trig(-km)
+        return -si if which == "sin" else co
     co, si = _quarter_trig(k)
     return si if which == "sin" else co
 
